@@ -522,6 +522,8 @@ E1_VARS = {
     # read by helper processes bfg9000 starts (the compiler probes), not by
     # bfg9000 itself; @VENDOR@ is a header directory the project also names
     'C_INCLUDE_PATH': ['@VENDOR@', '/nonexistent/cinc'],
+    # the build tool of the configured backend, as found at configure time
+    'MAKE': ['make'],
 }
 
 
@@ -573,6 +575,9 @@ def e2e_cases(draw):
 
 BUILD_BFG = """\
 project('c09proj', version='1.0')
+# (a script may change the variables for its own run; that is not part of the
+# saved configuration)
+env.variables['C09_SCRIPT'] = env.getvar('C09_SCRIPT', 'seen') + '+script'
 import json
 with open(env.builddir.append('argv.json').string(), 'w') as f:
     json.dump({'name': argv.name, 'feat': argv.feat}, f)
@@ -620,7 +625,8 @@ def parse_env0(data):
     return out
 
 
-READS = {'CC', 'CFLAGS', 'CPPFLAGS', 'LDFLAGS', 'LDLIBS', 'C_INCLUDE_PATH'}
+READS = {'CC', 'CFLAGS', 'CPPFLAGS', 'LDFLAGS', 'LDLIBS', 'C_INCLUDE_PATH',
+         'MAKE'}
 
 
 def prop_e2e(rec):
